@@ -187,7 +187,7 @@ def ctor_into_iter(chk, cfg):
 
 def glue(chk, cfg):
     """iter / IntoIterator for &Seq / chain / FromIterator<&SeqSlice> for Vec<Seq> delegate."""
-    INTO = r"^seq::iterators::<impl std::iter::IntoIterator for &'?[a-z_]* ?seq::slice::SeqSlice<A>>::into_iter$"
+    INTO = r"^<&'?[a-z_]* ?seq::slice::SeqSlice<A> as std::iter::IntoIterator>::into_iter$"
     import re
     b = an.one(chk, "S-glue", cfg.bio, "SeqSlice::iter", name="iter", self_re=r"^seq::slice::SeqSlice<A>$", inherent=True)
     if b:
@@ -215,7 +215,7 @@ def glue(chk, cfg):
         ok = False
         if len(r) == 1 and not r[0].guards and r[0].ret[0] == "call" and "std::iter::Iterator>::chain" in r[0].ret[1]:
             a0, a1 = r[0].ret[2][0], r[0].ret[2][1]
-            ITERFN = r"^seq::iterators::<impl seq::slice::SeqSlice<A>>::iter$"   # iter() is into_iter() (row above)
+            ITERFN = r"^seq::slice::SeqSlice::<A>::iter$"   # iter() is into_iter() (row above)
             ok = a0[0] == "call" and (re.match(INTO, a0[1]) or re.match(ITERFN, a0[1])) and a0[2] == (P(1),) and a1 == P(2)
         chk.ob("S-glue", "SeqSlice::chain", ok, "chain must be into_iter(self).chain(second): " + (show(r[0].ret) if r else "?"), b["span"])
     b = an.one(chk, "S-glue", cfg.bio, "FromIterator<&SeqSlice> for Vec<Seq>", name="from_iter", trait="std::iter::FromIterator",
